@@ -170,6 +170,9 @@ fn console_vxw_c14() {
             sv(&[]),
             sv(&[("Content-Type", "application/json; charset=utf-8"), ("ETag", "\"0x8D\""), ("x-ms-request-id", "4f2a"), ("Server", "Microsoft-IIS/10.0")]),
             sv(&[("Set-Cookie", "a=1; Path=/"), ("set-cookie", "b=2; HttpOnly"), ("X-Multi", "one"), ("x-multi", "two"), ("Cache-Control", "no-cache, no-store"), ("Retry-After", "5"), ("WWW-Authenticate", "Basic realm=\"x\"")]),
+            // large response heads (a 12 KiB token in one header; 60 headers of 600 bytes = 36 KiB): relayed like any other head
+            vec![("Content-Type".to_string(), "application/json".to_string()), ("x-ms-token".to_string(), "t".repeat(12 * 1024))],
+            (0..60).map(|i| (format!("x-vx-{:02}", i), format!("{:02}", i).repeat(300))).collect(),
         ];
         for status in [200u16, 201, 202, 204, 206, 301, 302, 304, 400, 401, 403, 404, 409, 410, 429, 500, 502, 503] {
             for (hi, rh) in resp_headers.iter().enumerate() {
